@@ -17,6 +17,7 @@ common representation is visible in the code and is decided:
          table is re-keyed with the same function; the four tables of the outer parser are extended unconditionally
   C07.d  both group-producing styles register the same whole-group loader action (_ActionConfigLoad) under the key
   C07.e  filter_default_actions drops the same classes from lists and from mappings
+  C07.f  skip_default treats a key as a group for every style (no action / whole-group loader / subcommand)
 Not decided: equality of parse results / dumps over all inputs; help text; positional arguments.
 """
 
@@ -297,6 +298,43 @@ def run(ctx: Ctx) -> int:
         at = [(ast.unparse(t), p) for t, p in guard_atoms(cs[0])]
         extra = [a for a in at if a not in (("as_group", True), ("config_load", True), ("nested_key is not None", True), ("nested_key is None", False))]
         ctx.oblige("C07.d", not extra, cs[0], f"for class groups the loader is added whenever a group with a key and parameters is created (extra conditions found: {extra})", fn=fgc)
+
+    # the whole-group loader comes BEFORE the group's field actions in parser._actions, in every style: sources that walk
+    # the actions in order (environment variables) apply the whole-group value first and refine it field by field; the
+    # other way round the whole-group value replaces the branch and the field values are lost for that style only
+    loader_calls = [c for c in calls_in(fm) if call_leaf(c) == "add_argument" and any(k.arg == "action" and "_ActionConfigLoad" in ast.unparse(k.value) for k in c.keywords)]
+    ext = got.get(f"{outer}._actions.extend")
+    if loader_calls and ext is not None:
+        ok = not gm.can_reach(gm.cn(ext), gm.cn(loader_calls), exclude_labels={"e"}) and gm.can_reach(gm.cn(loader_calls), gm.cn(ext), exclude_labels={"e"})
+        ctx.oblige("C07.d", ok, loader_calls[0], "the whole-group loader of a moved parser is registered before its field actions are appended" if ok else "the whole-group loader of a moved parser is registered after its field actions: with default_env the variable of the whole group (APP_G) is applied after the per-field variables (APP_G__A) and replaces the branch - the same variables give different values for the inner-parser style and for the class / dataclass styles", fn=fm, construct="loader before field actions (inner parser)")
+    fsa = ctx.func("_signatures:SignatureArguments._add_signature_arguments")
+    gsa = ctx.cfg(fsa)
+    grp = [c for c in calls_in(fsa) if call_leaf(c) == "_create_group_if_requested"]
+    fld = [c for c in calls_in(fsa) if call_leaf(c) == "_add_signature_parameter"]
+    ctx.need(grp and fld, "_add_signature_arguments: _create_group_if_requested(...) and the _add_signature_parameter loop")
+    ok = not gsa.can_reach(gsa.cn(fld), gsa.cn(grp), exclude_labels={"e"}) and gsa.dominates(gsa.cn(grp), gsa.cn(fld), exclude_labels={"e"})
+    ctx.oblige("C07.d", ok, grp[0], "the group (with its whole-group loader) is created before the parameters are added" if ok else "parameters are added before the group and its whole-group loader exist", fn=fsa, construct="loader before field actions (class arguments)")
+
+    # =========================================================== C07.f
+    # skip_default descends into a group to drop the fields that are at their default.  "Group" must mean the same thing
+    # for every style: no action under the key (dotted arguments), a subcommand, or the whole-group loader that C07.d
+    # shows the other styles register under the key
+    fdd = ctx.func("_core:ArgumentParser._dump_delete_default_entries")
+    recs = [c for c in calls_in(fdd) if call_leaf(c) == "_dump_delete_default_entries" and isinstance(c.func, ast.Attribute) and isinstance(c.func.value, ast.Name) and c.func.value.id == "self"]
+    ctx.need(recs, "_dump_delete_default_entries: the self-recursion into groups")
+    from .util import guard_atoms as _ga7
+
+    for c in recs:
+        classes = set()
+        none_ok = False
+        for t, pol in _ga7(c, stop=fdd):
+            for n in ast.walk(t):
+                if isinstance(n, ast.Call) and call_leaf(n) == "isinstance" and len(n.args) == 2:
+                    classes |= {x.id for x in ast.walk(n.args[1]) if isinstance(x, ast.Name)}
+                if isinstance(n, ast.Compare) and isinstance(n.ops[0], ast.Is) and isinstance(n.comparators[0], ast.Constant) and n.comparators[0].value is None:
+                    none_ok = True
+        ok = none_ok and "_ActionConfigLoad" in classes
+        ctx.oblige("C07.f", ok, c, "skip_default reduces a group field by field whether it was declared by dotted arguments (no action under the key) or owns a whole-group loader (class, dataclass, inner parser)" if ok else f"skip_default descends only into keys with no action{' / ' + ', '.join(sorted(classes)) if classes else ''}: a group declared as a dataclass-typed argument, class arguments or an inner parser (which own an _ActionConfigLoad under the key) is kept whole as soon as one field differs from its default, while the same group declared by dotted arguments loses its default-valued fields - same values, different dump", fn=fdd)
 
     # =========================================================== C07.e
     ff = ctx.func("_actions:filter_default_actions")
